@@ -1152,9 +1152,11 @@ pub fn gen_help_lines(d: &Decl, rng: &mut Rng, reps: usize) -> Vec<HelpCase> {
     out.push(HelpCase { line: "helpx".into(), kind: "not-help", about: About::NotHelp });
     out.push(HelpCase { line: "Help".into(), kind: "not-help", about: About::NotHelp });
     // unknown and hidden names
-    for bad in ["zz9", "Help"] {
+    for bad in ["zz9", "Help", "\"\"", "\"\" zz9"] {
         out.push(HelpCase { line: format!("help {}", bad), kind: "unknown", about: About::Unknown });
     }
+    // the empty string is a token like any other, and not a command
+    out.push(HelpCase { line: "\"\" --help".into(), kind: "unknown", about: About::Unknown });
     for h in hidden_names(d) {
         out.push(HelpCase { line: format!("help {}", h), kind: "hidden", about: About::Unknown });
         out.push(HelpCase { line: format!("{} --help", h), kind: "hidden", about: About::Unknown });
@@ -1165,6 +1167,9 @@ pub fn gen_help_lines(d: &Decl, rng: &mut Rng, reps: usize) -> Vec<HelpCase> {
                 let mut t = vec!["help".to_string()];
                 t.extend(p.clone());
                 t.push("zz9".into());
+                out.push(HelpCase { line: t.join(" "), kind: "unknown-nested", about: About::Unknown });
+                t.pop();
+                t.push("\"\"".into());
                 out.push(HelpCase { line: t.join(" "), kind: "unknown-nested", about: About::Unknown });
             }
         }
